@@ -130,7 +130,23 @@ def resource_limit_key(key, what, text):
 
 def structured(rng):
     """Hostile shapes: long dotted names, deep nesting, long expressions, huge numbers."""
-    r = rng.randrange(11)
+    r = rng.randrange(12)
+    if r == 11:
+        # a small DAG whose tree expansion is exponential: one leaf type reused with a wide fan-out on every level.  Parsing (sizes, validation)
+        # must stay polynomial in the text; anything that walks the expansion without memoising - or whose memo forgets some results (0, empty
+        # lists) - needs fan_out^depth steps.  Parse only: renderers that inline nested messages (-O) write the expansion by construction.
+        fan, depth = rng.choice([(24, 10), (16, 12), (8, 20), (30, 8)])
+        leaf = rng.choice(["message Z {}", "message Z {}", "message Z { bool b = 1 }", "enum Z : uint1 {}", "message Y {}\nmessage Z { Y y = 1; Y[3] ys = 2 }",
+                           "type Z = bool[1]", "message Z' {}"])
+        out = ["proto fanout", leaf]
+        prev = "Z"
+        for lv in range(1, depth + 1):
+            out.append(f"message L{lv} {{ " + "; ".join(f"{prev}{'[2]' if rng.random() < 0.1 else ''} f{k} = {k}" for k in range(1, fan + 1)) + " }")
+            prev = f"L{lv}"
+            if leaf.startswith("message Z { bool") or leaf.startswith("type Z") or leaf.startswith("message Z'"):
+                if fan ** lv * (17 if "'" in leaf else 1) > 60000:
+                    break   # stay inside the 65535-bit message limit when the leaf has a size
+        return "\n".join(out) + "\n"
     if r == 9:
         # beyond the interpreter's recursion limit (known finding recursion-limit) and just below it
         if rng.random() < 0.3:
@@ -368,6 +384,9 @@ def worker(ctx):
         else:
             text, origin = "".join(base), "valid"
         want_render = (origin != "valid" or rng.random() < 0.3) and accepted_rendered < n_inputs // 6
+        if text.startswith("proto fanout"):
+            want_render = False   # see structured(): only parsing is required to stay polynomial
+            res.count("fanout_dag_inputs")
         if run_one(text, origin, want_render) and want_render:
             accepted_rendered += 1
     ex.close()
